@@ -62,8 +62,7 @@ func run(c call, dst, src, ad []byte) (ret []byte, ok bool) {
 		}
 		s.SetCounter(c.ctr)
 		if c.pre > 0 {
-			t := make([]byte, c.pre)
-			s.XORKeyStream(t, t)
+			s.XORKeyStream(make([]byte, c.pre), make([]byte, c.pre))
 		}
 		s.XORKeyStream(dst, src)
 	case "salsa":
@@ -166,7 +165,10 @@ func genOne(g *hx.Gen) {
 		sealer := map[string]string{"open": "seal", "openx": "sealx", "opengen": "sealgen", "sbopen": "sbseal", "boxopen": "boxseal", "signopen": "sign"}[f]
 		cs := c
 		cs.f = sealer
-		srcBytes, _ = run(cs, nil, msg, adBytes)
+		if _, p := hx.PanicText(func() { srcBytes, _ = run(cs, nil, msg, adBytes) }); p {
+			srcBytes = make([]byte, mlen+overhead(f))
+			g.Stat("oracle-panicked")
+		}
 		copy(arena[srcOff:], srcBytes)
 	} else {
 		srcBytes = append([]byte(nil), arena[srcOff:srcOff+mlen]...)
@@ -272,19 +274,25 @@ func genOne(g *hx.Gen) {
 	// oracle: the same call on separate buffers
 	var oracle []byte
 	ad := append([]byte(nil), arena[adOff:adOff+adLen]...)
-	if isXor(f) {
-		if (f == "xtsenc" || f == "xtsdec") && srcLen%16 != 0 {
-			oracle = nil
+	// (a panic or failure of the separate-buffer call leaves out=- : the model then answers bad-op and the case is reported)
+	if _, p := hx.PanicText(func() {
+		if isXor(f) {
+			if (f == "xtsenc" || f == "xtsdec") && srcLen%16 != 0 {
+				oracle = nil
+			} else {
+				oracle = make([]byte, srcLen)
+				run(c, oracle, append([]byte(nil), srcBytes...), nil)
+			}
 		} else {
-			oracle = make([]byte, srcLen)
-			run(c, oracle, append([]byte(nil), srcBytes...), nil)
+			var ok bool
+			oracle, ok = run(c, nil, append([]byte(nil), srcBytes...), ad)
+			if !ok {
+				oracle = nil
+			}
 		}
-	} else {
-		var ok bool
-		oracle, ok = run(c, nil, append([]byte(nil), srcBytes...), ad)
-		if !ok {
-			panic("oracle open failed")
-		}
+	}); p {
+		oracle = nil
+		g.Stat("oracle-panicked")
 	}
 	// geometry class: the in-place output of an AEAD Open touches the tag bytes of the ciphertext
 	// (not covered by the overlap check, which looks at ciphertext[:len-16] only)
@@ -300,7 +308,7 @@ func genOne(g *hx.Gen) {
 }
 
 func gen(g *hx.Gen) {
-	n := g.Count(8000, 400000)
+	n := g.Count(8000, 120000)
 	for i := 0; i < n; i++ {
 		genOne(g)
 	}
